@@ -368,3 +368,89 @@ Lemma bm_script_obs T khtbl chtbl i is s :
   | BIMem k => BOBool (bm_mem (py_eq T) (lookup_val khtbl) (lookup_hash chtbl) k s) :: fst (bm_script T khtbl chtbl s is)
   end.
 Proof. destruct i; reflexivity. Qed.
+
+
+(* ================================================================ the store of big_map values *)
+Section StoreProofs.
+  Variables K V HT : Type.
+  Variable eqb : K -> K -> bool.
+  Variable ltb : K -> K -> bool.
+  Variable kh : K -> HT.
+  Variable chain : Z -> HT -> option V.
+  Hypothesis KO : key_order eqb ltb.
+
+  (* a slot refines its own dictionary: same id, well-formed layer, GET = the dictionary *)
+  Definition slot_rel (b : bmv K V) (d : sdict K V) : Prop :=
+    bv_id b = fst d /\ inv K V ltb (bv_map b) /\ forall k, bv_get eqb kh chain k b = snd d k.
+
+  Lemma Forall2_set_nth {A B} (R : A -> B -> Prop) i x y : forall l l',
+    Forall2 R l l' -> R x y -> Forall2 R (set_nth i x l) (set_nth i y l').
+  Proof.
+    induction i as [|i IH]; intros l l' F Rxy; destruct F as [|a b l l' Rab F]; simpl; try constructor; auto.
+  Qed.
+
+  Lemma Forall2_del_nth {A B} (R : A -> B -> Prop) i : forall l l',
+    Forall2 R l l' -> Forall2 R (del_nth i l) (del_nth i l').
+  Proof.
+    induction i as [|i IH]; intros l l' F; destruct F as [|a b l l' Rab F]; simpl; try constructor; auto.
+  Qed.
+
+  Lemma Forall2_nth_error {A B} (R : A -> B -> Prop) l l' : Forall2 R l l' -> forall i,
+    match nth_error l i, nth_error l' i with
+    | Some a, Some b => R a b
+    | None, None => True
+    | _, _ => False
+    end.
+  Proof.
+    induction 1 as [|a b l l' Rab F IH]; intros [|i]; simpl; auto. apply IH.
+  Qed.
+
+  Lemma slot_update b d k vo : slot_rel b d ->
+    slot_rel (snd (bv_update eqb ltb kh chain k vo b)) (fst d, d_update eqb k vo (snd d)) /\
+    fst (bv_update eqb ltb kh chain k vo b) = snd d k.
+  Proof.
+    intros [Hid [Iv R]]. unfold bv_update, slot_rel, bv_get in *. cbv zeta. cbn [fst snd bv_id bv_map].
+    split; [split; [exact Hid|split]|].
+    - apply (bm_update_inv K V HT eqb ltb kh (chain (bv_id b)) KO), Iv.
+    - intro k'. rewrite (bm_update_get K V HT eqb ltb kh (chain (bv_id b)) KO) by exact Iv.
+      unfold d_update. rewrite R. reflexivity.
+    - apply R.
+  Qed.
+
+  Lemma s_step_refines st sp op : Forall2 slot_rel st sp ->
+    Forall2 slot_rel (s_step eqb ltb kh chain st op) (sd_step eqb sp op).
+  Proof.
+    intro F. destruct op as [i k vo|i|i]; simpl.
+    - pose proof (Forall2_nth_error _ _ _ F i) as N.
+      destruct (nth_error st i) as [b|], (nth_error sp i) as [d|]; try contradiction; [|exact F].
+      apply Forall2_set_nth; [exact F | apply slot_update, N].
+    - pose proof (Forall2_nth_error _ _ _ F i) as N.
+      destruct (nth_error st i) as [b|], (nth_error sp i) as [d|]; try contradiction; [|exact F].
+      apply Forall2_app; [exact F | constructor; [exact N | constructor]].
+    - apply Forall2_del_nth, F.
+  Qed.
+
+  Lemma slot_init id lit : SS K ltb (keys lit) ->
+    slot_rel {| bv_id := id; bv_map := bm_init lit |} (sd_init eqb kh chain id lit).
+  Proof.
+    intro S. destruct (bm_init_refines K V HT eqb ltb kh (chain id) lit S) as [Iv R].
+    split; [reflexivity | split; [exact Iv | exact R]].
+  Qed.
+
+  (* any history over any number of big_map values, with DUPs and DROPs: every value still answers like
+     its own dictionary (copies are independent of each other, ids do not interfere) *)
+  Lemma store_refines ops : forall st sp, Forall2 slot_rel st sp ->
+    Forall2 slot_rel (fold_left (s_step eqb ltb kh chain) ops st) (fold_left (sd_step eqb) ops sp).
+  Proof.
+    induction ops as [|o ops IH]; intros st sp F; simpl; [exact F|]. apply IH, s_step_refines, F.
+  Qed.
+End StoreProofs.
+
+Lemma xs_script_state T khtbl chains is : forall st,
+  snd (xs_script T khtbl chains st is)
+  = fold_left (s_step (py_eq T) (py_lt T) (lookup_val khtbl) (lookup_chain chains))
+      (ops_of xs_op is) st.
+Proof.
+  induction is as [|i is IH]; intro st; [reflexivity|].
+  cbn [xs_script snd ops_of]. rewrite IH. destruct (xs_op i); reflexivity.
+Qed.
